@@ -455,7 +455,7 @@ func (p *Prog) AccessorField(fn *ssa.Function) (string, bool) {
 		ret = srcs[0]
 	}
 	d := p.Desc(ret)
-	prefix := recv.Name() + "."
+	prefix := ParamName(recv) + "."
 	if len(d) > len(prefix) && d[:len(prefix)] == prefix {
 		path := d[len(prefix):]
 		for _, ch := range path {
@@ -557,6 +557,9 @@ func transparentArgs(x *ssa.Parameter) []ssa.Value {
 	}
 	return out
 }
+
+// FreeVarBinding: the value (usually the Alloc of a captured variable) the enclosing function binds to the free variable x.
+func FreeVarBinding(x *ssa.FreeVar) ssa.Value { return freeVarBinding(x) }
 
 func freeVarBinding(x *ssa.FreeVar) ssa.Value {
 	cl := x.Parent()
